@@ -92,6 +92,7 @@ ASSUMPTIONS = [
     "simulated times stay below 2^53 ns (base offsets up to 10^6 s), where float seconds still resolve 1 ns",
     "requests may carry daemon=True (background traffic): they are requests like any other and are counted against an "
     "external ledger of what the harness sent; runs use an explicit end_time, so daemon events are delivered",
+    "an entity may be renamed (Entity.name reassigned) between construction and run; same oracles",
     "a sender may retract (Event.cancel()) a request only while it is buffered inside the limiter; the statement says nothing "
     "about retracted requests, so any of these outcomes is accepted for them: forwarded like any other (what HEAD does), "
     "discarded at the head of the queue and counted as dropped, or forwarded and discarded by the engine downstream; "
@@ -110,6 +111,7 @@ EXPECTED_PROBES = [
     "probe.fixed_inexact_window_boundary_poll_drained", "probe.inductor_subns_interval_poll_drained",
     "probe.sliding_truncated_window_expiry_attempt", "probe.inductor_queued", "probe.large_base_offset",
     "probe.daemon_request_delivered", "probe.daemon_request_queued", "probe.distributed_daemon_request",
+    "probe.renamed_entity", "probe.renamed_entity_poll_delivered",
     "probe.buffered_request_cancelled", "probe.cancelled_request_forwarded_by_poll", "probe.cancelled_head_with_backlog",
 ]
 SHRINK_SKIP = ("kind", "type", "mode")
@@ -212,6 +214,9 @@ def _decorate(rng, sc, period):
             for o in ops[-rng.randint(2, min(8, n)):]:
                 if o is not ops[0]:
                     o["k"], o["v"] = "g", 0
+    if rng.random() < 0.25:     # renamed after construction, before the run
+        sc["rename"] = {"suffix": rng.choice(["-renamed", "-renamed", "/b 2", "::x"]), "sink": rng.random() < 0.4,
+                        "other": rng.random() < 0.4}
     return sc
 
 
@@ -332,6 +337,25 @@ def _op_time(op, prev, win, policy, live):
     return max(t, prev)
 
 
+def _apply_rename(rn, lims, sinks, others) -> bool:
+    if not rn:
+        return False
+    if not isinstance(rn, dict):
+        raise InvalidScenario("rename")
+    suffix = rn.get("suffix", "-renamed")
+    if not isinstance(suffix, str) or not suffix:
+        raise InvalidScenario("rename suffix")
+    for x in lims:
+        x.name = x.name + suffix
+    if rn.get("sink"):
+        for x in sinks:
+            x.name = x.name + suffix
+    if rn.get("other"):
+        for x in others:
+            x.name = x.name + suffix
+    return True
+
+
 class _QueueingRun:
     """RateLimitedEntity / Inductor / NullRateLimiter in front of one sink."""
 
@@ -381,6 +405,11 @@ class _QueueingRun:
             self.win = 1_000_000
             self.cap = 0
         self.ecls = type(self.lim).__name__
+        # entity renamed between construction and run (one attribute assignment; the library does it itself for cloned
+        # links): a legal configuration, judged by the unchanged oracles.  The poll label follows the CURRENT name.
+        self.renamed = _apply_rename(sc.get("rename"), [self.lim], [self.sink], [])
+        if self.poll_type is not None:
+            self.poll_type = self.poll_type.split("::")[0] + "::" + self.lim.name
         self.adaptive = self.info is not None and self.info["type"] == "adaptive"
         self.fb = [x for x in sc.get("fb", []) if x in (0, 1, 2, 3)] if self.adaptive else []
         self.fb_delay = sc.get("fb_delay_ns", 0) if self.adaptive else 0
@@ -785,7 +814,8 @@ def _run_queueing(sc):
         "probe.tua_guard_1ns": int(bool(pr and pr.n_guard)), "probe.wait_iteration_multi_step": int(bool(pr and pr.max_steps >= 2)),
         "probe.adaptive_rate_changed": fl["rate_changed"], "probe.adaptive_hit_min": fl["hit_min"],
         "probe.adaptive_hit_max": fl["hit_max"], "probe.adaptive_feedback_delayed": fl["fb_delayed"],
-        "probe.large_base_offset": int(h.base >= 1000 * NS),
+        "probe.large_base_offset": int(h.base >= 1000 * NS), "probe.renamed_entity": int(h.renamed),
+        "probe.renamed_entity_poll_delivered": int(h.renamed and h.n_polls > 0),
         "probe.fixed_boundary_poll_drained": fl["fixed_boundary_drain"],
         "probe.fixed_inexact_window_boundary_poll_drained": fl["fixed_inexact_boundary_drain"],
         "probe.inductor_subns_interval_poll_drained": fl["inductor_subns_drain"],
@@ -846,6 +876,7 @@ class _DistRun:
         self.lims = [DistributedRateLimiter(f"limiter{i}", self.sinks[0 if shared else i], self.store, global_limit=limit,
                                             window_size=w, local_threshold=th) for i in range(k)]
         self.sink_of = {id(l): self.sinks[0 if shared else i] for i, l in enumerate(self.lims)}
+        self.renamed = _apply_rename(sc.get("rename"), self.lims, self.sinks, [self.store])
         self.arrived = {}          # rid -> (limiter index, time)
         self.inflight = collections.Counter()
         self.prev = {i: (0, 0, 0) for i in range(k)}
@@ -989,6 +1020,7 @@ def _run_distributed(sc):
                 "probe.distributed_sequential_bound_checked_with_latency": h.flags["sequential_bound_checked_latency"],
                 "probe.distributed_latency_forward_delivered": h.flags["delivered_after_round_trip"],
                 "probe.large_base_offset": int(h.base >= 1000 * NS), "probe.distributed_daemon_request": h.flags["daemon_req"],
+                "probe.renamed_entity": int(h.renamed),
                 "requests.delivered": len(h.arrived), "requests.forwarded": len(h.sink_log)}
     if sig:
         counters[f"violating_runs.{klass}"] = 1
